@@ -1247,6 +1247,14 @@ def main():
     if bad:
         chk.proof["ok"] = False
         chk.proof["log"] += "\nforbidden tokens: %s" % bad
+    parts = TRANSLATED.get(args.prop)
+    if parts:
+        import translate
+        t_ok, t_msgs = translate.translate_and_check(parts)
+        chk.extra["source_translation"] = t_msgs
+        chk.notes.append("floating-point kernels re-translated from /repo's source on this run and proved equal to the model: %s" % ", ".join(parts))
+        if not t_ok:
+            chk.corr_break("source-translation", {"parts": parts}, ("translation", [m for m in t_msgs if "proved equal" not in m], ""))
     if args.replay:
         sys.exit(replay(chk, args.replay))
     R = random.Random(seed * 1000003 + int(args.prop[1:]))
@@ -1285,6 +1293,10 @@ def replay(chk, path):
         print("replay of this kind of case is done by re-running the check: %s" % item.get("theorem_or_correspondence"))
     return chk.finish()
 
+
+# properties whose arithmetic kernels are additionally tied to the source by translation
+TRANSLATED = {"C09": ["communication", "position"], "C11": ["mobility"], "C16": ["position"], "C17": ["position"],
+              "C19": ["camera"], "C20": ["position"]}
 
 ALL_SIM_MONS = {"C01": [M.mon_C01], "C02": [M.mon_C02], "C03": [M.mon_C03], "C07": [M.mon_C07], "C08": [M.mon_C08],
                 "C09": [M.mon_C09], "C10": [M.mon_C10], "C11": [M.mon_C11], "C12": [M.mon_C12], "C18": [M.mon_C18], "C04": [M.mon_C04_bounds], "C05": [M.mon_C05]}
